@@ -80,7 +80,7 @@ SIM_CHECKS = {
         'cells': 'c08',
         'bitmap': True,
         'needs_history_rule': True,
-        'py_stage': {'runs': {'quick': 16000, 'thorough': 800000}},
+        'py_stage': {'runs': {'quick': 12000, 'thorough': 600000}},
         'extra_coverage': lambda total: {
             'cached_year_transitions': {
                 'measure': 'ordered (zone, previously cached year, queried year) triples with both years in 1999..2050, '
